@@ -9,6 +9,8 @@ import (
 	"encoding/json"
 	"fmt"
 	"math/rand/v2"
+	"os"
+	"runtime/debug"
 	"sort"
 	"testing"
 )
@@ -125,9 +127,9 @@ func NewResult(seed uint64) *Result {
 	return &Result{Seed: seed, Probes: map[string]int{}, Faults: map[string]int{}, keyset: map[string]bool{}}
 }
 
-func (r *Result) Probe(name string)      { r.Probes[name]++ }
+func (r *Result) Probe(name string)         { r.Probes[name]++ }
 func (r *Result) ProbeN(name string, n int) { r.Probes[name] += n }
-func (r *Result) Fault(name string)      { r.Faults[name]++ }
+func (r *Result) Fault(name string)         { r.Faults[name]++ }
 func (r *Result) Case(key string) {
 	if r.keyset == nil {
 		r.keyset = map[string]bool{}
@@ -152,11 +154,26 @@ func (r *Result) Violate(prop, oracle, subject, detail string, step int) {
 }
 
 // Logf feeds the deterministic event log (hash chain only; nothing is stored).
+var traceFile *os.File
+
 func (r *Result) Logf(format string, a ...interface{}) {
+	if p := os.Getenv("SIM_TRACE"); p != "" {
+		if traceFile == nil {
+			traceFile, _ = os.Create(p)
+		}
+		fmt.Fprintf(traceFile, "%d "+format+"\n", append([]interface{}{r.Seed}, a...)...)
+	}
 	h := sha256.New()
 	h.Write(r.hasher)
 	fmt.Fprintf(h, format, a...)
 	r.hasher = h.Sum(nil)
+}
+
+// Tracef writes to the SIM_TRACE file only (debugging aid; never part of the digest).
+func (r *Result) Tracef(format string, a ...interface{}) {
+	if traceFile != nil {
+		fmt.Fprintf(traceFile, "%d "+format+"\n", append([]interface{}{r.Seed}, a...)...)
+	}
 }
 
 func (r *Result) Finish() {
@@ -258,6 +275,9 @@ func SafeRun(e Engine, prop string, seed uint64, tier string, replay *Schedule) 
 	defer func() {
 		if p := recover(); p != nil {
 			LastPanic = fmt.Sprint(p)
+			if os.Getenv("SIM_STACK") != "" {
+				fmt.Fprintf(os.Stderr, "panic: %v\n%s\n", p, debug.Stack())
+			}
 			s, r = nil, nil
 		}
 	}()
